@@ -332,8 +332,8 @@ def rule_retractall_once(em, rep, rid):
                 return
         rep.ok(rid, f.qname, 'generator with at most one yield per path', f.loc())
         return
-    pub = em.repo.lookup_method(em.YP, '_update_predicate')
-    pubs = [n for n in cfg.nodes if n.kind == 'call' and pub in em.cg.resolve_callable(f, n.ast.func)]
+    pubset = {pf for pf, _ in StoreModel(em).publishers}       # by role: the functions that put a clause list into the store
+    pubs = [n for n in cfg.nodes if n.kind == 'call' and any(c in pubset for c in em.cg.resolve_callable(f, n.ast.func))]
     if 'fall' in cfg.exits and cfg.exits['fall'] in cfg.live:
         p = cfg.g.find_path(cfg.entry, lambda m: m is cfg.exits['fall'], edge_ok=lambda l, a, b: l != 'exc')
         rep.violation(rid, f.qname + ':fallthrough', 'retractall can return None (not an iterator): the goal raises TypeError '
@@ -431,6 +431,8 @@ def rule_clear_resets(em, rep, rid):
                   (isinstance(n.value, ast.Call) and is_name(n.value.func) and n.value.func.id in ('dict', 'list', 'set'))}
     # only state that grows after construction has to be reset
     mutated = set()
+    # (the set-up helpers that __init__ calls on self do not count as "after construction")
+    init_helpers = {m for n_, cs in em.cg.calls.get(init, ()) for m in cs if m.cls is em.YP and is_self_attr(n_.func)}
     for g in em.repo.all_functions(('engine',)):
         if g.name in ('__init__', 'clear'):
             continue
@@ -441,7 +443,7 @@ def rule_clear_resets(em, rep, rid):
                     x.func.attr in ('setdefault', 'append', 'update', 'add', 'insert', 'extend', 'pop', 'remove', 'clear'):
                 mutated.add(x.func.value.attr)
             if isinstance(x, ast.Assign) and any(is_self_attr(t) for t in x.targets):
-                mutated.update(t.attr for t in x.targets if is_self_attr(t) and g.name not in ('_set_default_eval_context',))
+                mutated.update(t.attr for t in x.targets if is_self_attr(t) and g not in init_helpers)
     stateless = containers - mutated
     containers &= mutated
     for k in sorted(stateless):
